@@ -21,6 +21,9 @@ fn process_commands(
                 Response::Error { msg } => {
                     responses.push(msg.clone());
                     log::debug!("Http response Error: {}", msg);
+                    // A refused command may also have pushed a line on the session channel (e.g.
+                    // "error no-db-selected"): it belongs to this entry, not to a later command
+                    while let Ok(Some(_)) = receiver.try_next() {}
                 }
                 Response::VersionError {
                     msg,
